@@ -61,6 +61,11 @@ static void string_pair(const ST::string &sa, const S &a, const ST::string &sb, 
     } else {
         EXPECT_EQ("compare_i:cstr:zero-iff-fold-equal", sa.compare_i(sb.c_str()) == 0, fa == ref::folded(bc), "");
     }
+    // deprecated null_t comparisons mean "is empty"
+    EXPECT_EQ("operator==(null_t) [deprecated]", sa == ST::null_t(), a.empty(), "");
+    EXPECT_EQ("operator!=(null_t) [deprecated]", sa != ST::null_t(), !a.empty(), "");
+    EXPECT_EQ("null_t==string [deprecated]", ST::null_t() == sb, b.empty(), "");
+    EXPECT_EQ("null_t!=string [deprecated]", ST::null_t() != sb, !b.empty(), "");
     // hashes
     if (want == 0) EXPECT_EQ("hash:equal-strings", ST::hash()(sa) == ST::hash()(sb), 1, "");
     if (fa == fb) EXPECT_EQ("hash_i:fold-equal-strings", ST::hash_i()(sa) == ST::hash_i()(sb), 1, "");
@@ -80,8 +85,11 @@ static void string_pair(const ST::string &sa, const S &a, const ST::string &sb, 
             EXPECT_EQ("compare_ni:zero-iff-fold-equal", cn == 0, ref::folded(pa) == ref::folded(pb), ex);
             EXPECT_EQ("compare_ni:antisymmetry", sgn(sb.compare_ni(sa, nn)), -cn, ex);
             EXPECT_EQ("compare_n:ci-param", sgn(sa.compare_n(sb, nn, ST::case_insensitive)), cn, ex);
-            if (bc.size() == b.size())
+            if (bc.size() == b.size()) {
                 EXPECT_EQ("compare_ni:cstr", sgn(sa.compare_ni(sb.c_str(), nn)), cn, ex);
+                EXPECT_EQ("compare_ni:char8_t", sgn(sa.compare_ni(sb.u8_str(), nn)), cn, ex);
+                EXPECT_EQ("compare_n:cstr-ci-param", sgn(sa.compare_n(sb.c_str(), nn, ST::case_insensitive)), cn, ex);
+            }
         }
     }
 }
@@ -140,6 +148,10 @@ static void buffer_pair(const char *tn, const std::basic_string<T> &a, const std
     BEQ("operator==", *ba == *bb, want == 0, "");
     BEQ("operator!=", *ba != *bb, want != 0, "");
     BEQ("operator<", *ba < *bb, want < 0, "");
+    BEQ("operator==(null_t) [deprecated]", *ba == ST::null_t(), a.empty(), "");
+    BEQ("operator!=(null_t) [deprecated]", *ba != ST::null_t(), !a.empty(), "");
+    BEQ("null_t==buffer [deprecated]", ST::null_t() == *bb, b.empty(), "");
+    BEQ("null_t!=buffer [deprecated]", ST::null_t() != *bb, !b.empty(), "");
     const BS bc = cut0(b);
     BEQ("compare:cstr", sgn(ba->compare(bb->c_str())), ref_cmp(a, bc), "");
     size_t lim = std::max(a.size(), b.size()) + 1;
